@@ -377,7 +377,11 @@ static void trx_if_measure_rsp_cb(struct trx_instance *trx, char *resp)
 	int dbm;
 
 	/* Parse freq. and power level */
-	sscanf(resp, "%u %d", &freq10, &dbm);
+	if (sscanf(resp, "%u %d", &freq10, &dbm) != 2) {
+		LOGPFSML(trx->fi, LOGL_ERROR,
+			 "Failed to parse RSP MEASURE arguments: %s\n", resp);
+		return;
+	}
 	freq10 /= 100;
 
 	band_arfcn = gsm_freq102arfcn((uint16_t) freq10, 0);
@@ -548,8 +552,11 @@ static int trx_ctrl_read_cb(struct osmo_fd *ofd, unsigned int what)
 		trx->powered_up = false;
 		osmo_fsm_inst_state_chg(trx->fi, TRX_STATE_IDLE, 0, 0);
 	}
-	else if (!strncmp(tcm->cmd + 4, "MEASURE", 7))
-		trx_if_measure_rsp_cb(trx, buf + 14);
+	else if (!strncmp(tcm->cmd + 4, "MEASURE", 7)) {
+		/* the arguments follow the status code, wherever that ends */
+		p = strchr(p + 1, ' ');
+		trx_if_measure_rsp_cb(trx, p ? p + 1 : "");
+	}
 	else if (!strncmp(tcm->cmd + 4, "ECHO", 4))
 		osmo_fsm_inst_state_chg(trx->fi, TRX_STATE_IDLE, 0, 0);
 	else
